@@ -8,6 +8,9 @@ package main
 // against the output of the command before it.
 
 import (
+	"os"
+	"strings"
+	"strconv"
 	"fmt"
 	"regexp"
 	"regexp/syntax"
@@ -183,4 +186,69 @@ func ruleConsoleTypestate(p *Prog, r *Report, rule string, pkgs map[string]bool,
 	}
 	r.floor(rule, "console sends examined", sends, floor)
 	r.floor(rule, "console waits examined", waits, floor)
+}
+
+// dialogueConsts: the string constants that a function types into or waits for on the console
+// (arguments of Conn.IssueCmd / WaitShort / WaitLogin / Send / SendCmd / GetCmdOutput, followed
+// through concatenation, Sprintf and local variables), with multiplicity, sorted.
+func dialogueConsts(fn *ssa.Function) []string {
+	var out []string
+	for _, cs := range callsOf(fn) {
+		switch cs.calleeName() {
+		case "(*console.Conn).IssueCmd", "(*console.Conn).WaitShort", "(*console.Conn).WaitLogin", "(*console.Conn).Send", "(*console.Conn).SendCmd", "(*console.Conn).GetCmdOutput":
+			for _, a := range cs.In.Common().Args[1:] {
+				for _, s := range pathConstants(a, 0, map[ssa.Value]bool{}) {
+					out = append(out, strconv.Quote(s))
+				}
+			}
+		}
+	}
+	sort.Strings(out)
+	return out
+}
+
+// ruleDialogueConsts: the commands and patterns of the audited dialogue functions.
+func ruleDialogueConsts(p *Prog, r *Report, rule, prop string) {
+	r.rule(rule, "The reload dialogue uses its audited commands and patterns: for the functions of tables/dialogue_consts.tsv the string constants typed into or waited for on the console (arguments of the Conn methods, followed through concatenation, Sprintf and variables) are among the audited ones (multiset inclusion). `[#] ?$` waits for a prompt at the end of the buffer; without the anchor the wait ends at a `#` inside the echo of the next command.")
+	n := 0
+	for _, row := range readTable("dialogue_consts.tsv", 4) {
+		if !propListed(row[1], prop) {
+			continue
+		}
+		n++
+		fn := p.Funcs[row[0]]
+		if fn == nil {
+			r.fail(rule, "dialogue|"+row[0], "", "function "+row[0]+" not found", "re-audit")
+			continue
+		}
+		gl := dialogueConsts(fn)
+		got := strings.Join(gl, " | ")
+		// every command and pattern in use is an audited one (dropping one in favour of the
+		// standard-prompt helpers is judged by the typestate rule, not here)
+		left := map[string]int{}
+		for _, x := range strings.Split(row[2], " | ") {
+			left[x]++
+		}
+		var extra []string
+		for _, x := range gl {
+			if left[x] > 0 {
+				left[x]--
+			} else {
+				extra = append(extra, x)
+			}
+		}
+		r.add(rule, "dialogue|"+row[0], p.pos(fn.Pos()), "the commands and patterns of "+row[0]+" are audited ones ("+row[3]+")", len(extra) == 0,
+			fmt.Sprintf("the dialogue with the device uses a command or pattern that was not audited: %v\n   audited: %s\n   now:     %s", extra, row[2], got))
+	}
+	r.floor(rule, "audited dialogue functions for "+prop, n, 4)
+}
+
+func init() {
+	dumpers["dialogueconsts"] = func(p *Prog, m *Model) {
+		for _, n := range strings.Split(os.Getenv("FN"), ";") {
+			if fn := p.Funcs[n]; fn != nil {
+				fmt.Printf("%s\tPROPS\t%s\tREASON\n", n, strings.Join(dialogueConsts(fn), " | "))
+			}
+		}
+	}
 }
